@@ -1233,7 +1233,20 @@ func (sc *serverConn) writeGoAway(strm uint32, code ErrorCode, message string) {
 
 	fr.SetBody(ga)
 
-	sc.write(fr)
+	// Queued with a bound on the wait. With a peer that has stopped reading
+	// the write loop sits in Write and the queue stays full, and the read loop
+	// sends GOAWAY for the errors it finds on its way out: waiting for room
+	// there kept it from ever returning, and the connection with it. The peer
+	// that does not read would not have seen the frame anyway.
+	select {
+	case sc.writer <- fr:
+	case <-sc.writeStop:
+		ReleaseFrameHeader(fr)
+	case <-sc.writeDone:
+		ReleaseFrameHeader(fr)
+	case <-time.After(writeDrainTimeout):
+		ReleaseFrameHeader(fr)
+	}
 
 	if sc.debug {
 		sc.logger.Printf(
